@@ -55,4 +55,14 @@ restate C01_vm_refines_sld_call := vm_refines_sld_call
     defines call/1..call/8 only) raises existence_error(procedure, call/N). -/
 restate C01_vm_refines_sld_ctl := vm_refines_sld_ctl
 
+/- **C01_vm_refines_sld_callN** (stage 4a): `CallNFrag` = `CtlFrag` + `call(G, A1, …, Ak)`, 1 ≤ k ≤ 7
+    (call/2 … call/8, what the Go engine defines) as a goal of clause bodies, of the query and of
+    called goals.  VM: `callN` dereferences the closure and appends the arguments (instantiation
+    error for a variable, type_error(callable, _) for a number or string), then `Call` on the goal
+    so built; reference: `addArgs`, then the body of `call/1`.  Side condition `CallsOK` (now also
+    about the goals built by call/N: `callNOK`).  `C01_vm_refines_sld_ctl` is the instance without
+    call/N goals (its side condition has become weaker: called goals may contain call/N).
+    For N ≥ 9 the MODEL and the reference disagree (see above). -/
+restate C01_vm_refines_sld_callN := vm_refines_sld_callN
+
 end PrologVerif.C01
